@@ -58,7 +58,7 @@ Proof.
   - destruct (get h t); intros E; inversion E; reflexivity.
   - intros E; inversion E; reflexivity.
   - intros E; inversion E; reflexivity.
-  - destruct op; [destruct (w_in w)|]; intros E; inversion E; reflexivity.
+  - destruct (wstep w op) as [w2 [rv|re]]; intros E; inversion E; reflexivity.
 Qed.
 Lemma frame_step_req h w f u f' : frame_step h w f = FRequest u f' -> f' = f.
 Proof.
@@ -74,7 +74,7 @@ Proof.
   - destruct (get h t); discriminate.
   - discriminate.
   - discriminate.
-  - destruct op; [destruct (w_in w)|]; discriminate.
+  - destruct (wstep w op) as [w2 [rv|re]]; discriminate.
 Qed.
 Lemma deliver_tid f r : fr_tid (deliver_res f r) = fr_tid f.
 Proof. unfold deliver_res. destruct (fr_comp f); auto. destruct r; reflexivity. Qed.
